@@ -11,6 +11,34 @@ fn sh(script: &str) -> Arc<Command> {
 
 async fn run(name: &str) -> Result<(), String> {
     match name {
+        // C18 (BOUNDED fallback, consulted only when the deductive check is undecided): the argv handed to the OS is exactly the configured one,
+        // for every list of up to 3 arguments over a fixed alphabet of awkward strings, with and without a shell
+        "argv_exact_bounded" => {
+            use std::ffi::OsString;
+            let alpha: Vec<&str> = vec!["", "a b", "'q' \"dq\"", "$HOME", "*", "line\nbreak", "h\u{e9}llo\u{2192}\u{4e16}\u{754c}", "--", "-n", ";", "\\", "%PATH%"];
+            let mut lists: Vec<Vec<String>> = vec![vec![]];
+            for a in &alpha { lists.push(vec![a.to_string()]); }
+            for a in &alpha { for b in &alpha { lists.push(vec![a.to_string(), b.to_string()]); } }
+            for a in &alpha { for b in &alpha { for c in &alpha { lists.push(vec![a.to_string(), b.to_string(), c.to_string()]); } } }
+            let n = lists.len();
+            for l in lists {
+                let want: Vec<OsString> = l.iter().map(OsString::from).collect();
+                let c = Command { program: Program::Exec { prog: "prog".into(), args: l.clone() }, options: Default::default() };
+                let mut sp = c.to_spawnable();
+                let got: Vec<OsString> = sp.command_mut().as_std().get_args().map(|a| a.to_os_string()).collect();
+                if got != want { return Err(format!("Program::Exec args {l:?}: the command would receive {got:?}")); }
+                let mut shell = Shell::new("sh");
+                shell.options = vec!["-e".into()];
+                let c = Command { program: Program::Shell { shell, command: "echo $0; exit".into(), args: l.clone() }, options: Default::default() };
+                let mut sp = c.to_spawnable();
+                let got: Vec<OsString> = sp.command_mut().as_std().get_args().map(|a| a.to_os_string()).collect();
+                let mut want2: Vec<OsString> = vec!["-e".into(), "-c".into(), "echo $0; exit".into()];
+                want2.extend(want.iter().cloned());
+                if got != want2 { return Err(format!("Program::Shell args {l:?}: the shell would receive {got:?}, expected {want2:?}")); }
+            }
+            println!("INFO argv_exact_bounded: {n} argument lists x 2 program kinds");
+            Ok(())
+        }
         // C09: to_wait() on a job that never ran resolves at once
         "next_ending_pending" => {
             let (job, _t) = start_job(sh("sleep 5"));
